@@ -12,8 +12,14 @@
   The share is the double the code computes (`Duration::as_secs_f64` of both, one division);
   `0/0` (NaN) and comparisons with NaN count as below, as in the code.
   The same `C03.blockOK` is the monitor run on the implementation's traces.
+  `C03_share_exact` / `C03_share_band`: what the double comparison means for the exact rational
+  share blocked/elapsed, for durations below 2^53 s: "below the limit q" in doubles implies
+  blocked/elapsed < q (1 + 2^-49), and the double test can only differ from the exact test inside
+  the band q (1 ± 2^-50) (`Proofs/C03Exact.lean`: `Duration::as_secs_f64` is accurate to 2^-52 and
+  the quotient to 2^-50, by composing the half-ulp error of each of the five roundings).
 -/
 import MbVerif.Proofs.C03
+import MbVerif.Proofs.C03Exact
 
 namespace Mb.C03
 open Mb
@@ -97,6 +103,20 @@ theorem C03_single (ms : List Machine) (fp fb : F64) (t0 : Int) (rng : σ) (h : 
   · left; left; exact ⟨h1, h2⟩
   · left; right; exact h2
   · right; exact ⟨h2, h3⟩
+
+/-- the double test "share below the limit" implies the exact rational share is below the limit
+    up to a relative 2^-49 (durations below 2^53 s, elapsed time positive, limit q > 0) -/
+theorem C03_share_exact (a b : Nat) (f : F64) (q : ℚ) (ha : a < 2 ^ 53 * 10 ^ 9)
+    (hb : b < 2 ^ 53 * 10 ^ 9) (hb0 : 0 < b) (hv : Fp.val64 f = .fin q) (hq : 0 < q)
+    (h : belowShare a b f = true) : (a : ℚ) / b < q * (1 + 1 / 2 ^ 49) :=
+  C03_exact' a b f q ha hb hb0 hv hq h
+
+/-- outside the band q (1 ± 2^-50) the double test and the exact test agree -/
+theorem C03_share_band (a b : Nat) (f : F64) (q : ℚ) (ha : a < 2 ^ 53 * 10 ^ 9)
+    (hb : b < 2 ^ 53 * 10 ^ 9) (hb0 : 0 < b) (hv : Fp.val64 f = .fin q) (hq : 0 < q) :
+    ((a : ℚ) / b * (1 + 1 / 2 ^ 50) < q → belowShare a b f = true) ∧
+    (q ≤ (a : ℚ) / b * (1 - 1 / 2 ^ 50) → belowShare a b f = false) :=
+  C03_exact_band a b f q ha hb hb0 hv hq
 
 /-- Non-vacuity: the recount of a history with a backwards clock (begin at 10, end at 5) gives a
     blocked time of 0. -/
